@@ -56,7 +56,7 @@ def run(rep, tier, seed):
     quick = tier == "quick"
     jc.run_mc_jump(rep, tier)
     n = 48 if quick else 900
-    jobs = [(seed % 100000, i, {"checkdraws": False, "max_steps": 120 if quick else 250}) for i in range(n)]
+    jobs = [(seed % 100000, i, {"checkdraws": False, "max_steps": 120 if quick else 250, "extend": 0.4}) for i in range(n)]
     results = mc.pool_map(jc.model_worker, jobs)
     for r in results:      # a failure while gridding a finished path belongs to C15
         r["findings"] = [f for f in r["findings"] if f.get("stage") != "gridding"]
@@ -67,6 +67,7 @@ def run(rep, tier, seed):
     rep.cov["model_shapes"] = shapes
     rep.assume("wrappers on simulate.firstReaction / tauLeap see every attempt of SimulateOde._jump")
     rep.assume("a run slower than 20 s that still advances time is discarded, not judged")
+    rep.cov["models_extended_after_simulation"] = sum(1 for r in results if r.get("extended"))   # same object: add_event / add_transition / add_birth_death, then simulated again
     rep.rule("%d random event models x 8 runs (exact/tau, raw/gridded, fixed tau, epsilon); a run is validated "
              "event by event by TLC; models are distinct by seed" % n)
     if acc == 0 and not rep.violations and not rep.known_hits:
